@@ -138,6 +138,7 @@ func main() {
 			os.Exit(2)
 		}
 	}
+	eng.verifDir = *verif
 	eng.tier, eng.seed, eng.workers, eng.solver, eng.maxPaths = tier, seed, *workers, *solver, *maxPaths
 	if *verbose {
 		fmt.Printf("loaded %s + harness overlay in %s\n", *repo, fmtDur(eng.loadTime))
@@ -391,7 +392,7 @@ func finish(eng *Engine, prop, verifDir, harnessDir string, runs []*HarnessRun, 
 	var samples []interface{}
 	var assumptions []string
 	assumptions = append(assumptions, stubAssumptions...)
-	usesFS := false
+	usesFS, usesC := false, false
 	for _, h := range runs {
 		for _, s := range h.samples {
 			if len(samples) < 12 {
@@ -402,6 +403,9 @@ func finish(eng *Engine, prop, verifDir, harnessDir string, runs []*HarnessRun, 
 			if strings.Contains(f, "Stack") {
 				usesFS = true
 			}
+			if strings.HasPrefix(f, "C:") {
+				usesC = true
+			}
 		}
 		for _, a := range docList(eng.harnessDocs[h.name], "assumes:") {
 			assumptions = append(assumptions, h.name+": "+a)
@@ -409,6 +413,9 @@ func finish(eng *Engine, prop, verifDir, harnessDir string, runs []*HarnessRun, 
 	}
 	if usesFS {
 		assumptions = append(assumptions, fsAssumptions...)
+	}
+	if usesC {
+		assumptions = append(assumptions, cAssumptions...)
 	}
 	if len(samples) == 0 {
 		samples = append(samples, map[string]string{"note": "no complete path"})
